@@ -295,6 +295,8 @@ func (s *scriptedSource) Read(p []byte) (int, error) {
 		return copy(p, c.Hex("data")), nil
 	case "err":
 		return 0, errors.New("scripted entropy failure")
+	case "errfull":
+		return copy(p, c.Hex("data")), errors.New("scripted entropy failure after a full read")
 	}
 	panic("harness: drbgprng: unknown source behaviour " + c.Str("kind"))
 }
